@@ -1234,3 +1234,59 @@ Proof.
     try reflexivity; try exact ex_idle0.
   repeat constructor; cbn; tauto.
 Qed.
+
+(* the frame instance is not vacuous: a message codec for the two messages without body satisfies H_rt, H_len, H_kind,
+   and three OPTIONS envelopes (two grouped in one self-contained segment, one carried by a non-self-contained segment)
+   are delivered through model/Frame.v's decode_frame *)
+Definition mini_mc : msg_codec :=
+  {| mc_encode := fun _ m => match m with M_Options | M_Ready => Ok [] | _ => Err end;
+     mc_length := fun _ m => match m with M_Options | M_Ready => Ok 0 | _ => Err end;
+     mc_decode := fun _ op => if op =? OpCodeOptions then ret M_Options else if op =? OpCodeReady then ret M_Ready else rfail |}.
+Definition mini_ok (v : Z) (m : Message) : Prop := m = M_Options \/ m = M_Ready.
+Definition mini_norm (v : Z) (m : Message) : Message := m.
+Definition no_fatal (m : Message) : bool := false.
+
+Lemma mini_rt : forall v m, supported v -> mini_ok v m ->
+  exists mb, mc_encode mini_mc v m = Ok mb /\ forall rest, mc_decode mini_mc v (msg_opcode m) (mb ++ rest) = DOk (mini_norm v m) rest.
+Proof. intros v m _ [-> | ->]; exists []; split; reflexivity. Qed.
+Lemma mini_len : forall v m mb, supported v -> mini_ok v m -> mc_encode mini_mc v m = Ok mb -> mc_length mini_mc v m = Ok (zlen mb).
+Proof. intros v m mb _ [-> | ->] E; cbn in E; injection E as <-; reflexivity. Qed.
+Lemma mini_kind : forall v m, mini_ok v m ->
+  msg_switch v (mini_norm v m) = msg_switch v m /\ msg_startup (mini_norm v m) = msg_startup m /\ no_fatal (mini_norm v m) = no_fatal m.
+Proof. intros. repeat split. Qed.
+
+Definition ex_opt (sid : Z) : Frame := NewFrame 5 sid M_Options.
+Lemma ex_opt_ok sid : -32768 <= sid < 32768 -> envelope_ok mini_mc mini_ok (ex_opt sid) [].
+Proof.
+  intro Hs. unfold envelope_ok, ex_opt, NewFrame. cbn [f_Header f_Body h_Version h_Flags bd_Message msg_is_response msg_opcode].
+  change (ProtocolVersion_IsBeta 5) with false. cbn iota.
+  split; [|split; [lia|split; [reflexivity|split; [reflexivity|vm_compute; reflexivity]]]].
+  unfold frame_ok. cbn [f_Header f_Body h_Version h_Flags h_StreamId h_IsResponse h_OpCode bd_Message msg_is_response msg_opcode].
+  split; [unfold supported, spec_versions, V2, V3, V4, V5, DSE1, DSE2; cbn [In]; tauto|].
+  split; [lia|]. split; [exact Hs|]. split; [reflexivity|]. split; [reflexivity|].
+  unfold body_ok, has_tracing_id. cbn. repeat split; try reflexivity. left. reflexivity.
+Qed.
+
+Definition exf_frames : list Frame := [ex_opt 1; ex_opt 2; ex_opt 3].
+Definition exf_env (f : Frame) : list Z := encoded_plain f [].
+Definition exf_nf (f : Frame) : Frame := frame_normal mini_norm f (zlen (body_bytes (f_Header f) (f_Body f) [])).
+Definition exf_segments : list wire_seg := [WSelf (exf_env (ex_opt 1) ++ exf_env (ex_opt 2)); WPart (exf_env (ex_opt 3))].
+Definition exf_fc := ffc mini_mc no_body_comp no_body_comp no_fatal.
+
+Lemma ex_frames_instance :
+  exists wire, encode_wire ex_sc CNone exf_segments = Ok wire /\
+               rx_all exf_fc ex_sc Server modern0 wire = (modern0, map exf_nf exf_frames, RxOk).
+Proof.
+  apply (modern_delivery_frames mini_mc mini_ok mini_norm mini_rt mini_len no_body_comp no_body_comp no_fatal mini_kind
+           Server CNone never_worth exf_frames (map exf_env exf_frames) (map exf_nf exf_frames) exf_segments modern0); try reflexivity.
+  - unfold exf_frames. cbn [map]. repeat (constructor; [apply ex_opt_ok; lia|]). constructor.
+  - ex_forall reflexivity.
+  - unfold segmentation_hdr, exf_segments, exf_frames. cbn [map].
+    change (segmentation_with (fun p0 : list Z => 9 <= zlen p0)
+              ([exf_env (ex_opt 1); exf_env (ex_opt 2)] ++ (exf_env (ex_opt 3) :: []))
+              (WSelf (concat [exf_env (ex_opt 1); exf_env (ex_opt 2)]) :: (map WPart (exf_env (ex_opt 3) :: []) ++ []))).
+    apply sg_self; [vm_compute; discriminate|].
+    apply sg_multi; [vm_compute; reflexivity| |vm_compute; discriminate|constructor].
+    repeat constructor; vm_compute; discriminate.
+  - unfold exf_segments. ex_forall ltac:(split; [ex_bytes_ok|intro; discriminate]).
+Qed.
